@@ -7,7 +7,7 @@ cd "$(dirname "$0")"
 for s in $seeds; do
   for p in $props; do
     t0=$(date +%s)
-    out=$(VERIF_SEED=$s timeout 3600 /venv/bin/python run_check.py $p --tier $tier 2>&1); rc=$?
+    out=$(VERIF_SEED=$s timeout ${SWEEP_TIMEOUT:-3600} /venv/bin/python run_check.py $p --tier $tier 2>&1); rc=$?
     t1=$(date +%s)
     echo "seed=$s prop=$p rc=$rc wall=$((t1-t0))s $(echo "$out" | grep -c '^VIOLATION') violations"
     if [ $rc -ne 0 ]; then echo "$out" | grep -v KNOWN-FINDING | head -12 | cut -c1-400; fi
